@@ -513,7 +513,7 @@ Definition enc_event_x (q : qstate) (e : event) : list Z :=
   end.
 Definition enc_status_x (q : qstate) : list Z := enc_status q ++ [count_factories q].
 
-(* per op:  code (1 pop ok / 2 raised / 3 pause ok / 4 pause ValueError / 5 resume / 6 closest-key query) *)
+(* per op:  code (1 pop ok / 2 raised / 3 pause ok / 4 pause rejected with ValueError / 5 resume / 6 closest-key query) *)
 Fixpoint run_qx (R : qrep) (q : qstate) (ops : list xop) : list Z :=
   match ops with
   | [] => []
@@ -526,8 +526,9 @@ Fixpoint run_qx (R : qrep) (q : qstate) (ops : list xop) : list Z :=
     end
   | XPause tm :: t =>
     let '(q', ev, err) := pause R q tm in
-    if err then [4; zlen ev] ++ flat_map (enc_event_x q') ev
-    else [3; 0; zlen ev] ++ flat_map (enc_event_x q') ev ++ enc_status_x q' ++ run_qx R q' t
+    (* a rejected pause (ValueError out of rewind_samples) does not end the history: cancel, requeue and
+       the trimming of the log have happened, the clock stays, the queue is paused; the caller goes on *)
+    [(if err then 4 else 3); 0; zlen ev] ++ flat_map (enc_event_x q') ev ++ enc_status_x q' ++ run_qx R q' t
   | XResume tm :: t =>
     let q' := resume q tm in
     [5; 0; 0] ++ enc_status_x q' ++ run_qx R q' t
